@@ -454,7 +454,11 @@ def rekey_fault_body(kex, alg, edit, info, exchange, who):
         if t == 20:
             st["kexinits"] += 1
             return None
-        if st["kexinits"] - 1 != exchange or "orig" in info:
+        if st["kexinits"] - 1 != exchange:
+            return None
+        if "orig" in info:
+            if t == reply_type:
+                info["reply"] = raw
             return None
         if t == reply_type and not group_edit:
             info["reply"] = raw
